@@ -296,4 +296,84 @@ theorem cksOK_zip (sys : Sys S F P CS CP) (p : P) (s0 : S) (ts : List Nat) :
       rw [this]
     · exact ih ck h n hn
 
+/-! ### trajectory-relative hypotheses (what concrete solver steps can discharge) -/
+
+/-- `Hyp` restricted to the states of the true forward trajectory of a `T`-step run: everything is only required
+where the reverse loop actually evaluates it.  (A concrete step is invertible only on states satisfying its wall
+conditions, and the PML reverse step reads the recording of the forward run it undoes.) -/
+structure HypTraj (sys : Sys S F P CS CP) (p : P) (s0 : S) (T : Nat) (agree : S → S → Prop) (π : CP → CP')
+    (addP' : CP' → CP' → CP') : Prop where
+  vjpS_agree : ∀ n, n < T → ∀ ŝ c, agree ŝ (traj sys p s0 n) → sys.vjpS n ŝ p c = sys.vjpS n (traj sys p s0 n) p c
+  vjpP_agree : ∀ n, n < T → ∀ ŝ c, agree ŝ (traj sys p s0 n) →
+    π (sys.vjpP n ŝ p c) = π (sys.vjpP n (traj sys p s0 n) p c)
+  g_agree : ∀ n, n < T → ∀ ŝ, agree ŝ (traj sys p s0 (n + 1)) → agree (sys.g n ŝ p) (traj sys p s0 n)
+  setF_agree : ∀ n, n ≤ T → ∀ ŝ, agree ŝ (traj sys p s0 n) →
+    agree (sys.setF ŝ (sys.getF (traj sys p s0 n))) (traj sys p s0 n)
+  π_add : ∀ a b, π (sys.addP a b) = addP' (π a) (π b)
+
+theorem Hyp.toTraj {sys : Sys S F P CS CP} {p : P} {agree : S → S → Prop} {π : CP → CP'}
+    {addP' : CP' → CP' → CP'} (h : Hyp sys p agree π addP') (s0 : S) (T : Nat) : HypTraj sys p s0 T agree π addP' :=
+  { vjpS_agree := fun n _ ŝ c ha => h.vjpS_agree n ŝ _ c ha
+    vjpP_agree := fun n _ ŝ c ha => h.vjpP_agree n ŝ _ c ha
+    g_agree := fun n _ ŝ ha => h.g_agree n ŝ _ (by simpa [traj] using ha)
+    setF_agree := fun n _ ŝ ha => h.setF_agree ŝ _ ha
+    π_add := h.π_add }
+
+theorem applyCheckpoints_agree_traj {sys : Sys S F P CS CP} {p : P} {s0 : S} {T : Nat} {agree : S → S → Prop}
+    {π : CP → CP'} {addP' : CP' → CP' → CP'} (h : HypTraj sys p s0 T agree π addP') (n : Nat) (hn : n ≤ T) :
+    ∀ (cks : List (Int × F)) (ŝ : S), CksOK sys p s0 cks → agree ŝ (traj sys p s0 n) →
+      agree (applyCheckpoints sys cks (n : Int) ŝ) (traj sys p s0 n) := by
+  intro cks
+  induction cks with
+  | nil => intro ŝ _ ha; simpa [applyCheckpoints] using ha
+  | cons ck rest ih =>
+    intro ŝ hck ha
+    have hrest : CksOK sys p s0 rest := fun c hc => hck c (List.mem_cons_of_mem _ hc)
+    simp only [applyCheckpoints, List.foldl_cons]
+    by_cases ht : (n : Int) = ck.1
+    · rw [if_pos ht]
+      have := hck ck (List.mem_cons_self) n ht.symm
+      rw [this]
+      exact ih _ hrest (h.setF_agree n hn _ ha)
+    · rw [if_neg ht]
+      exact ih _ hrest ha
+
+/-- the reverse-loop invariant under trajectory-relative hypotheses -/
+theorem loop_invariant_traj {sys : Sys S F P CS CP} {p : P} {s0 : S} {T : Nat} {agree : S → S → Prop} {π : CP → CP'}
+    {addP' : CP' → CP' → CP'} (h : HypTraj sys p s0 T agree π addP') (cks : List (Int × F))
+    (hck : CksOK sys p s0 cks) :
+    ∀ (T' fuel : Nat) (c : Carry S CS CP) (e : CS × CP), T' ≤ T → T' ≤ fuel → c.t = (T' : Int) →
+      agree c.s (traj sys p s0 T') → c.cs = e.1 → π c.cp = π e.2 →
+      (whileFuel condFixed (reverseBody sys p cks) fuel c).t = 0 ∧
+      (whileFuel condFixed (reverseBody sys p cks) fuel c).cs = (exactBwd sys p s0 T' e).1 ∧
+      π (whileFuel condFixed (reverseBody sys p cks) fuel c).cp = π (exactBwd sys p s0 T' e).2 ∧
+      agree (whileFuel condFixed (reverseBody sys p cks) fuel c).s s0 := by
+  intro T'
+  induction T' with
+  | zero =>
+    intro fuel c e _ _ ht ha hcs hcp
+    have hc : condFixed c = false := by simp [condFixed, ht]
+    rw [whileFuel_false _ _ _ _ hc]
+    exact ⟨by simpa using ht, by simpa [exactBwd] using hcs, by simpa [exactBwd] using hcp, by simpa [traj] using ha⟩
+  | succ T' ih =>
+    intro fuel c e hT hf ht ha hcs hcp
+    obtain ⟨fuel', rfl⟩ : ∃ f', fuel = f' + 1 := ⟨fuel - 1, by omega⟩
+    have hc : condFixed c = true := by simp [condFixed, ht]
+    rw [whileFuel_true _ _ _ _ hc]
+    have ht' : c.t - 1 = (T' : Int) := by rw [ht]; push_cast; ring
+    have ha1 : agree (applyCheckpoints sys cks c.t c.s) (traj sys p s0 (T' + 1)) := by
+      rw [ht]; exact applyCheckpoints_agree_traj h (T' + 1) hT cks c.s hck ha
+    have ha2 : agree (sys.g (T' : Int) (applyCheckpoints sys cks c.t c.s) p) (traj sys p s0 T') :=
+      h.g_agree T' (by omega) _ ha1
+    have key := ih fuel' (reverseBody sys p cks c) (stepVjp sys (T' : Int) (traj sys p s0 T') p e) (by omega) (by omega)
+      (by rw [reverseBody_t, ht'])
+      (by simp only [reverseBody, bodyFn]; rw [ht']; exact ha2)
+      (by
+        simp only [reverseBody, bodyFn, stepVjp]; rw [ht', hcs]
+        exact h.vjpS_agree T' (by omega) _ _ ha2)
+      (by
+        simp only [reverseBody, bodyFn, stepVjp]; rw [ht', h.π_add, h.π_add, hcp, hcs]
+        rw [h.vjpP_agree T' (by omega) _ _ ha2])
+    simpa [exactBwd] using key
+
 end Fdtdx.C04
